@@ -831,6 +831,148 @@ theorem interface_span (fuel : Nat) (c' : List String) (cs ts : List Token) (n :
   rw [hp, hts, spanPos_eq_tokSpan]
 
 
+/-! ### namespaces and whole files -/
+
+/-- kind-specific nesting of a declaration inside its own tokens `pre` (doc comments excluded) -/
+def DeclInner (d : Decl) (pre : List Token) : Prop :=
+  match d with
+  | .record _ _ _ _ fs _ _ => ∃ hd body tl, pre = hd ++ body ++ tl ∧ hd ≠ [] ∧ tl ≠ [] ∧ Tiles FieldSpan fs body
+  | .interface _ _ _ _ _ methods props _ => ∃ hd body rb ms, pre = hd ++ body ++ [rb] ∧ hd ≠ [] ∧
+      Tiles MemberSpan ms body ∧ methods = ms.filterMap Member.method? ∧ props = ms.filterMap Member.prop?
+  | _ => True
+
+/-- **declarations, with what is inside**: position = span of doc comments + consumed tokens; fields / members tile
+    the body -/
+theorem typeDecl_inner (fuel : Nat) (c : List String) (cs ts : List Token) (d : Decl) (rest : List Token)
+    (h : typeDecl fuel c (cs ++ ts) ts = some (d, rest)) :
+    ∃ pre, ts = pre ++ rest ∧ d.pos = tokSpan (cs ++ pre) ∧ DeclInner d pre := by
+  cases d with
+  | record n c' fl flp fs dv p =>
+    obtain ⟨hd, body, tl, h1, h2, h3, h4, h5⟩ := record_span fuel c cs ts n c' fl flp fs dv p rest h
+    exact ⟨hd ++ body ++ tl, h1, by rw [h4]; simp [Decl.pos], hd, body, tl, rfl, h2, h3, h5⟩
+  | interface n c' mn fl flp methods props p =>
+    obtain ⟨hd, body, rb, ms, h1, h2, h3, h4, h5, h6⟩ := interface_span fuel c cs ts n c' mn fl flp methods props p rest h
+    exact ⟨hd ++ body ++ [rb], h1, by rw [h3]; simp [Decl.pos], hd, body, rb, ms, rfl, h2, h4, h5, h6⟩
+  | enum n c' is p =>
+    obtain ⟨pre, h1, h2⟩ := typeDecl_span fuel c cs ts _ rest h
+    exact ⟨pre, h1, h2, trivial⟩
+  | flags n c' is p =>
+    obtain ⟨pre, h1, h2⟩ := typeDecl_span fuel c cs ts _ rest h
+    exact ⟨pre, h1, h2, trivial⟩
+  | function n c' f p =>
+    obtain ⟨pre, h1, h2⟩ := typeDecl_span fuel c cs ts _ rest h
+    exact ⟨pre, h1, h2, trivial⟩
+  | error n c' codes p =>
+    obtain ⟨pre, h1, h2⟩ := typeDecl_span fuel c cs ts _ rest h
+    exact ⟨pre, h1, h2, trivial⟩
+
+/-- `ContentSpan c seg`: a declaration or namespace was read from exactly `seg` (doc comments included); the children of
+    a namespace tile its body between `{` and `}` -/
+inductive ContentSpan : Content → List Token → Prop
+  | decl (d : Decl) (cs pre : List Token) : d.pos = tokSpan (cs ++ pre) → DeclInner d pre → ContentSpan (.decl d) (cs ++ pre)
+  | ns (n : String) (c : List String) (children : List Content) (hd body : List Token) (rb : Token) : hd ≠ [] →
+      Tiles ContentSpan children body →
+      ContentSpan (.ns n c children (tokSpan (hd ++ body ++ [rb]))) (hd ++ body ++ [rb])
+
+theorem content_span (fuel : Nat) : ∀ ts a rest, content fuel ts = some (a, rest) → ∃ pre, ts = pre ++ rest ∧ ContentSpan a pre := by
+  induction fuel with
+  | zero => intro ts a rest h; simp [content] at h
+  | succ g ih =>
+    intro ts0 a rest h
+    rw [content_succ] at h
+    obtain ⟨cs, h1, _⟩ := comments_sound ts0
+    split at h
+    · next hns =>
+      obtain ⟨nk, hnk, _⟩ := peekKw_inv hns
+      cases hn : nsIdent (comments ts0).2.tail with
+      | none => simp [hn] at h
+      | some y =>
+        obtain ⟨n, ts1⟩ := y
+        obtain ⟨nt, d, hnt, _⟩ := nsIdent_inv hn
+        simp only [hn] at h
+        cases hl : kw? "{" ts1 with
+        | none => simp [hl] at h
+        | some ts2 =>
+          obtain ⟨lb, rfl, _⟩ := kw?_inv hl
+          simp only [hl] at h
+          cases hm : many g (peekKw "}") (content g) g ts2 with
+          | none => simp [hm] at h
+          | some z =>
+            obtain ⟨children, ts3⟩ := z
+            simp only [hm] at h
+            cases hr : kw? "}" ts3 with
+            | none => simp [hr] at h
+            | some ts4 =>
+              obtain ⟨rb, rfl, _⟩ := kw?_inv hr
+              simp only [hr, Option.some.injEq, Prod.mk.injEq] at h
+              obtain ⟨rfl, rfl⟩ := h
+              obtain ⟨pre, rfl, hc⟩ := many_tiles ContentSpan g _ (content g) ih g _ _ _ hm
+              have hts : ts0 = ((cs ++ [nk, nt, lb]) ++ pre ++ [rb]) ++ ts4 := by rw [h1, hnk, hnt]; simp
+              refine ⟨(cs ++ [nk, nt, lb]) ++ pre ++ [rb], hts, ?_⟩
+              have := ContentSpan.ns n (comments ts0).1 children (cs ++ [nk, nt, lb]) pre rb (by simp) hc
+              have hsp : spanPos ts0 ts4 = tokSpan ((cs ++ [nk, nt, lb]) ++ pre ++ [rb]) := by
+                rw [hts, spanPos_eq_tokSpan]
+              rw [hsp]
+              exact this
+    · cases ht : typeDecl g (comments ts0).1 ts0 (comments ts0).2 with
+      | none => simp [ht] at h
+      | some y =>
+        obtain ⟨d, r⟩ := y
+        simp only [ht, Option.some.injEq, Prod.mk.injEq] at h
+        obtain ⟨rfl, rfl⟩ := h
+        have ht' : typeDecl g (comments ts0).1 (cs ++ (comments ts0).2) (comments ts0).2 = some (d, r) := by
+          rw [← h1]; exact ht
+        obtain ⟨pre, hpre, hpos, hin⟩ := typeDecl_inner g _ cs _ d r ht'
+        exact ⟨cs ++ pre, by rw [List.append_assoc, ← hpre]; exact h1, ContentSpan.decl d cs pre hpos hin⟩
+
+
+/-- a load directive was read from exactly two tokens; `pos` spans both, `pathPos` the file path token -/
+def LoadSpan (l : LoadAt) (pre : List Token) : Prop :=
+  ∃ a b, pre = [a, b] ∧ l.pos = tokSpan [a, b] ∧ l.pathPos = tokSpan [b]
+
+theorem load_span : ∀ ts l rest, load ts = some (l, rest) → ∃ pre, ts = pre ++ rest ∧ LoadSpan l pre := by
+  intro ts l rest h
+  unfold load at h
+  split at h
+  · next a b r =>
+    have e1 : spanPos (a :: b :: r) r = tokSpan [a, b] := spanPos_eq_tokSpan [a, b] r
+    have e2 : spanPos (b :: r) r = tokSpan [b] := spanPos_eq_tokSpan [b] r
+    split at h
+    · split at h
+      · simp at h; obtain ⟨rfl, rfl⟩ := h; exact ⟨[a, b], by simp, a, b, rfl, e1, e2⟩
+      · split at h
+        · simp at h; obtain ⟨rfl, rfl⟩ := h; exact ⟨[a, b], by simp, a, b, rfl, e1, e2⟩
+        · simp at h
+    · simp at h
+  · simp at h
+
+/-- **whole files**: the load directives and then the top-level contents tile the token list exactly; every recorded
+    position (directive, declaration, namespace, and — through `DeclInner` — field, member, parameter, type
+    reference, generic argument) is the span of exactly its tile, and tiles nest like the constructs -/
+theorem parseFile_span (toks : List Token) (file : File) (h : parseFile toks = some file) :
+    ∃ p1 p2, toks = p1 ++ p2 ∧ Tiles LoadSpan file.loads p1 ∧ Tiles ContentSpan file.contents p2 := by
+  rw [parseFile_eq] at h
+  cases hl : many (8 * toks.length + 16) stopLoads load (8 * toks.length + 16) toks with
+  | none => simp [hl] at h
+  | some x =>
+    obtain ⟨ls, ts1⟩ := x
+    simp only [hl] at h
+    cases hc : many (8 * toks.length + 16) (fun t => t.isEmpty) (content (8 * toks.length + 16)) (8 * toks.length + 16) ts1 with
+    | none => simp [hc] at h
+    | some y =>
+      obtain ⟨cs, ts2⟩ := y
+      simp only [hc] at h
+      split at h
+      · next hemp =>
+        simp only [Option.some.injEq] at h
+        subst h
+        have hts2 : ts2 = [] := by simpa using hemp
+        subst hts2
+        obtain ⟨p1, hp1, ht1⟩ := many_tiles LoadSpan _ _ load load_span _ _ _ _ hl
+        obtain ⟨p2, hp2, ht2⟩ := many_tiles ContentSpan _ _ _ (content_span _) _ _ _ _ hc
+        exact ⟨p1, p2, by rw [hp1, hp2]; simp, ht1, ht2⟩
+      · simp at h
+
 /-! ## 4. in terms of the source text -/
 
 theorem advance_no_newline (line col : Nat) (w : List Char) (h : '\n' ∉ w) : advance line col w = (line, col + w.length) := by
@@ -1215,6 +1357,9 @@ example : (lex "# doc\nx : list<i32> ;").bind (fun ts => (field 40 ts).map (fun 
 #print axioms record_field_within
 #print axioms member_span
 #print axioms interface_span
+#print axioms typeDecl_inner
+#print axioms content_span
+#print axioms parseFile_span
 #print axioms dataType_text_span
 #print axioms lex_segment_text
 #print axioms dataType_text_segment
